@@ -587,12 +587,12 @@ pub fn gen_clean(s: &mut Src, p: &Profile) -> (G, Vocab) {
             for sh in SHELLS {
                 if g.s.chance(1, 2) {
                     any = true;
-                    let body = E::Cmd(format!("spec_{name}_{sh}"));
+                    let body = E::Cmd(if p.exec_cmds { format!("echo spec_{name}_{sh}") } else { format!("spec_{name}_{sh}") });
                     spec_stmts.push(Stmt::Def { name: name.clone(), shell: Some(sh.to_string()), e: body });
                 }
             }
             if has_plain {
-                spec_stmts.push(Stmt::Def { name: name.clone(), shell: None, e: E::Cmd(format!("plain_{name}")) });
+                spec_stmts.push(Stmt::Def { name: name.clone(), shell: None, e: E::Cmd(if p.exec_cmds { format!("echo plain_{name}") } else { format!("plain_{name}") }) });
             }
             if any || has_plain {
                 g.spec_names.push((name, has_plain));
